@@ -32,6 +32,6 @@ pub fn call_boxed_mut<A>(f: &mut BoxedFn<(A,)>) -> (r: JoinFut<A>)
 { unimplemented!() }
 #[verifier::external_body]
 pub fn call_boxed(f: BoxedFn<()>, Tracked(w): Tracked<&mut World>)
-    requires old(w).cells.dom().contains(f.cap0()),
-    ensures detach_post(f.cap0(), old(w), final(w))
+    requires f.code() != 0 ==> old(w).cells.dom().contains(f.cap0()),
+    ensures f.code() != 0 ==> detach_post(f.cap0(), old(w), final(w)), f.code() == 0 ==> same_world(old(w), final(w))
 { unimplemented!() }
